@@ -251,6 +251,7 @@ def verify_unit(name, spec_path, repo, build_dir, extra=None, do_canary=True, ti
             res.rewrites[k] = res.rewrites.get(k, 0) + v
     res.trusted = trusted_scan(text)
     res.imports = list(u.imports)
+    res.watched_changed = list(u.watched_changed)
     try:
         toks, franges = fn_ranges_of(text)
     except (ValueError, IndexError) as e:
@@ -347,6 +348,9 @@ def verify_unit(name, spec_path, repo, build_dir, extra=None, do_canary=True, ti
         res.reason = "verus rc=%s, success=%s, unexplained failing functions: %s; %s" % (rc, vr.get("success"), bad, res.stderr_tail[-500:])
     res.rlimit_hit = rlimit_hit
 
+    if res.status == "ok" and getattr(res, "watched_changed", None):
+        res.status = "undecided"
+        res.reason = "a watched function outside the verifier's reach changed: %s" % ", ".join(res.watched_changed)
     if do_canary and res.status in ("ok", "failed"):
         res.canary = run_canary(text, gen, extra, timeout)
     res.wall_s = time.time() - t_start
